@@ -1,4 +1,27 @@
+//! E1 discovery scenarios: `scen_disc <c15|c16|c17> --seed S --shard i --nshards n --cases N --tier T --out F`
+//! C15 matching <=> compatible, C16 matched-status counts, C17 participant discovery / lease / ignore.
 #[path = "../../scen/src/common.rs"]
 mod common;
+mod c15;
+mod c16;
+mod c17;
+mod fnm;
 
-fn main() {}
+use common::Shard;
+use vcore::Args;
+
+fn main() {
+    let args = Args::parse();
+    let scenario = args.pos.first().cloned().unwrap_or_default();
+    let shard = Shard::from_args(args);
+    let rep = match scenario.as_str() {
+        "c15" => c15::run(&shard),
+        "c16" => c16::run(&shard),
+        "c17" => c17::run(&shard),
+        other => {
+            eprintln!("unknown scenario {other}");
+            std::process::exit(3);
+        }
+    };
+    rep.write(&shard.out);
+}
